@@ -43,7 +43,7 @@ type C11Task struct {
 }
 
 type FaultJ struct {
-	Kind  string `json:"kind"` // abort | stall
+	Kind  string `json:"kind"` // abort | stall | wabort (the at_yield-th Write call of the task's writer panics)
 	Task  int32  `json:"task"`
 	Yield uint64 `json:"at_yield"`
 }
@@ -132,11 +132,26 @@ func ruleList(op *C11Op) []validator.Rule {
 }
 
 type simWriter struct {
-	b strings.Builder
+	b    strings.Builder
+	task int
 }
+
+// writerAbortAt[task] = n: the n-th Write call of that task in the concurrent
+// phase panics (a writer that fails hard, recovered by the caller). Each task
+// touches only its own element.
+var (
+	writerAbortAt [verifsim.MaxTasks + 1]uint64
+	writerCalls   [verifsim.MaxTasks + 1]uint64
+)
 
 func (w *simWriter) Write(p []byte) (int, error) {
 	w.b.Write(p)
+	if verifsim.Active() && w.task >= 0 && w.task <= verifsim.MaxTasks {
+		writerCalls[w.task]++
+		if writerAbortAt[w.task] != 0 && writerCalls[w.task] == writerAbortAt[w.task] {
+			verifsim.AbortNow()
+		}
+	}
 	verifsim.HarnessYield(-3) // other tasks may run while a formatter is mid-output; an abort here is a writer panic
 	return len(p), nil
 }
@@ -237,7 +252,7 @@ func execOp(c *opCtx, op *C11Op) (result string) {
 	case "helpers":
 		renderHelpers(&b, c.schema, gen.NewRng(op.RulesSeed))
 	case "fmtschema":
-		w := &simWriter{}
+		w := &simWriter{task: c.task}
 		formatter.NewFormatter(w, fmtOptions(op.FmtOpts)...).FormatSchema(c.schema)
 		b.WriteString(w.b.String())
 	case "query", "validate":
@@ -296,7 +311,7 @@ func execOp(c *opCtx, op *C11Op) (result string) {
 			}
 		}
 		if op.FmtDoc {
-			w := &simWriter{}
+			w := &simWriter{task: c.task}
 			formatter.NewFormatter(w, fmtOptions(op.FmtOpts)...).FormatQueryDocument(doc)
 			b.WriteString("formatted:\n" + w.b.String())
 		}
@@ -679,10 +694,17 @@ func execRun(spec *C11Run, rl *raceLog) (res runResult) {
 		cfg.Sampling = true
 		cfg.SampleMask = (uint64(1) << uint(spec.SampleBits)) - 1
 	}
+	writerAbortAt, writerCalls = [verifsim.MaxTasks + 1]uint64{}, [verifsim.MaxTasks + 1]uint64{}
 	for _, f := range spec.Faults {
 		k := int32(verifsim.FaultAbort)
 		if f.Kind == "stall" {
 			k = verifsim.FaultStall
+		}
+		if f.Kind == "wabort" {
+			if f.Task >= 0 && int(f.Task) <= verifsim.MaxTasks {
+				writerAbortAt[f.Task] = f.Yield
+			}
+			continue
 		}
 		cfg.Faults = append(cfg.Faults, verifsim.Fault{Kind: k, Task: f.Task, Yield: f.Yield})
 	}
@@ -983,6 +1005,9 @@ func genRun(seed uint64, source string) *C11Run {
 	if nt > 8 {
 		maxOps = 3
 	}
+	// a small palette of formatter option sets per run, so that several tasks
+	// format with the SAME options (a cache keyed by options is then shared)
+	fmtPalette := []int{r.Intn(32), r.Intn(32), r.Intn(32)}
 	for t := 0; t < nt; t++ {
 		var task C11Task
 		no := r.Range(1, maxOps)
@@ -1011,7 +1036,7 @@ func genRun(seed uint64, source string) *C11Run {
 				op.ArgMaps = r.Chance(2, 3)
 				op.FmtDoc = r.Chance(1, 3)
 			}
-			op.FmtOpts = r.Intn(32)
+			op.FmtOpts = fmtPalette[r.Intn(len(fmtPalette))]
 			task.Ops = append(task.Ops, op)
 		}
 		run.Tasks = append(run.Tasks, task)
@@ -1042,6 +1067,9 @@ func genRun(seed uint64, source string) *C11Run {
 		f := FaultJ{Kind: "abort", Task: int32(r.Intn(nt)), Yield: uint64(r.Range(1, 8000))}
 		if r.Chance(1, 3) {
 			f.Kind = "stall"
+		} else if r.Chance(1, 3) {
+			f.Kind = "wabort"
+			f.Yield = uint64(r.Range(1, 60))
 		}
 		run.Faults = append(run.Faults, f)
 	}
